@@ -184,7 +184,8 @@ pub fn exec_after_life_elsewhere<K: Kit>(kit: &K, sc: &Scenario) -> Result<(Drv<
             world: crate::world::World::default(),
             start: crate::world::rand_state(&mut r, &spec2),
             extra_starts: vec![],
-            goal: crate::world::GoalSpec { centre: crate::world::rand_state(&mut r, &spec2), radius: sc.problem.goal.radius, mode: crate::world::GoalMode::Centre, fail_at: None, window: None },
+            // (every state satisfies this goal: the earlier life ends in a success at its first node)
+            goal: crate::world::GoalSpec { centre: crate::world::rand_state(&mut r, &spec2), radius: 1e9, mode: crate::world::GoalMode::Centre, fail_at: None, window: None },
             infeasible: None,
             tags: vec![],
         };
